@@ -438,6 +438,37 @@ impl<'a> Gen<'a> {
                 _ => {}
             }
         }
+        // coordinated pair: two compressed G1 elements shifted by +T / -T with T in the
+        // cofactor torsion (each is outside the subgroup, their sum is inside)
+        if let Some(t) = crate::m2::cofactor_torsion_point() {
+            use dusk_bls12_381::{G1Affine, G1Projective};
+            let g1: Vec<&Field> = o.fields.iter().filter(|f| matches!(f.kind, Kind::G1c(_))).collect();
+            let mut pairs: Vec<(usize, usize)> = (0..g1.len().saturating_sub(1)).map(|k| (k, k + 1)).collect();
+            if !thorough && pairs.len() > 2 {
+                pairs = vec![pairs[0], pairs[pairs.len() - 1]];
+            }
+            let dec = |f: &Field| -> Option<G1Affine> {
+                let b: [u8; 48] = o.bytes.get(f.off..f.off + 48)?.try_into().ok()?;
+                let p = G1Affine::from_compressed(&b);
+                if bool::from(p.is_some()) {
+                    Some(p.unwrap())
+                } else {
+                    None
+                }
+            };
+            let mut n = 0;
+            for (a, b) in pairs {
+                if let (Some(pa), Some(pb)) = (dec(g1[a]), dec(g1[b])) {
+                    let qa = G1Affine::from(G1Projective::from(pa) + t).to_compressed().to_vec();
+                    let qb = G1Affine::from(G1Projective::from(pb) - t).to_compressed().to_vec();
+                    self.push(oi, "badelem", "g1-pair(+T,-T)cofactor-torsion".into(), Some(g1[a]), Mut::Seq(vec![Mut::Set { off: g1[a].off, data: qa }, Mut::Set { off: g1[b].off, data: qb }]));
+                    n += 1;
+                }
+            }
+            if n > 0 {
+                self.cover(o, "badelem", &format!("{} pairs of adjacent compressed G1 elements shifted by +T / -T (cofactor torsion)", n));
+            }
+        }
         if !slots.is_empty() {
             self.cover(o, "badelem", &format!("every hand-built invalid element at {} slots ({})", slots.len(), if thorough { "every position class" } else { "one slot per slot kind" }));
         }
